@@ -99,6 +99,10 @@ def main():
     c.rule = "catalogue + %d random Hermitian models (<= %d modes, spinless / 2- / 3-component sites) x {default, ignored, custom linear sets}; non-trivial = more than one block" % (nrand, 5 if thorough else 4)
     c.trusted = ["TLC", "harness c07 projection"]
     c.assumptions = ["exact Hamiltonian = documented operators of the build calls (C04)", "custom candidates are diagonal in the Fock basis"]
+    # call histories of the documented workflow (spec/Workflow.tla): repeated prepare()/compute() are no-ops, a call changes the data of
+    # its own object only, and whatever the history, the finished object holds the data of the canonical linear order
+    import workflow
+    workflow.attach(c, {"S"}, 'states classification')
     c.finish()
 
 
